@@ -160,9 +160,49 @@ def text_forward(asm, acc, m, tup):
                       {'kind': 'fwdtext', 'm': m, 'args': list(tup)}, {'status': st})
 
 
+def label_case(asm, acc, seed, idx):
+    """explicit c.j / c.jal / c.beqz / c.bnez whose operand is a label: the immediate the halfword carries must be the distance
+    to the label.  Mnemonic written in lower, upper or mixed case (all accepted by the parser)."""
+    rng = random.Random('c02-lab-%d-%d' % (seed, idx))
+    m = ['c.j', 'c.jal', 'c.beqz', 'c.bnez'][idx % 4]
+    reach = 2046 if m in ('c.j', 'c.jal') else 254
+    dist = rng.choice([0, 2, 4, 6, 30, 62, 126, 254, reach, reach - 2, 2 * rng.randrange(0, reach // 2 + 1)])
+    back = rng.random() < 0.5
+    spelled = [m, m.upper(), m.capitalize(), 'C.' + m[2:]][(idx // 4) % 4]
+    reg = 'x%d, ' % rng.randrange(8, 16) if 'z' in m else ''
+    pre = ['c.nop'] * rng.randrange(0, 5)
+    if back:
+        lines = pre + ['target:'] + (['string ' + 'G' * dist] if dist else []) + ['%s %starget' % (spelled, reg)]
+        xi, want = len(lines) - 1, -dist
+    else:
+        lines = pre + ['%s %starget' % (spelled, reg)] + (['string ' + 'G' * (dist - 2)] if dist > 2 else []) + ['target:', 'c.nop']
+        xi, want = len(pre), (dist if dist >= 2 else 2)
+        if dist < 2:
+            want = 2
+    acc['n'] += 1
+    lay = monitors.layout(asm, lines)
+    case = {'kind': 'label', 'seed': seed, 'idx': idx}
+    if not lay.obs.ok or lay.chunks is None:
+        acc['ctr']['label_case_refused'] += 1
+        return
+    acc['nt'] += 1
+    acc['ctr']['label_cases'] += 1
+    data = lay.chunks[xi][1]
+    st = lay.chunks[xi][0]
+    tgt = lay.obs.labels.get('target')
+    k, i = rv.decode16(int.from_bytes(data, 'little')) if len(data) == 2 else ('%d bytes' % len(data), None)
+    if k != 'legal' or i['name'] != m or i['imm'] != tgt - st:
+        core.add_viol(acc, 'line %r at offset %d with `target` at %r emitted %s = %s %r; the label is %+d bytes away' % (
+            lines[xi], st, tgt, data.hex(), k, i, (tgt - st) if tgt is not None else 0), case, {'lines': [l[:40] for l in lines]})
+
+
 def run_shard(sh, deadline):
     asm = core.load_asm()
     acc = core.new_acc()
+    if sh['kind'] == 'label':
+        for idx in range(sh['lo'], sh['hi']):
+            label_case(asm, acc, sh['seed'], idx)
+        return acc
     if sh['kind'] == 'fwd':
         m = sh['m']
         core.see(acc, 'mnemonics_forward', m)
@@ -193,6 +233,8 @@ def plan(tier, seed):
     shards.sort(key=lambda s: -len(IMMR.get(s['m'], [])) * (34 if len(operands.FORMATS[s['m']]) > 2 else 1))
     step = 2048
     shards += [{'kind': 'rev', 'lo': lo, 'hi': lo + step} for lo in range(0, 65536, step)]
+    nl = 1600 if tier == 'quick' else 32000
+    shards += [{'kind': 'label', 'seed': seed, 'lo': lo, 'hi': lo + 200} for lo in range(0, nl, 200)]
     return {'shards': shards, 'budget_s': 300 if tier == 'quick' else 1200, 'exhaustive': True}
 
 
@@ -225,7 +267,9 @@ def post(acc, tier):
 def replay(case):
     asm = core.load_asm()
     acc = core.new_acc()
-    if case['kind'] == 'fwd':
+    if case['kind'] == 'label':
+        label_case(asm, acc, case['seed'], case['idx'])
+    elif case['kind'] == 'fwd':
         check_forward(asm, acc, case['m'], case['args'])
     elif case['kind'] == 'fwdtext':
         text_forward(asm, acc, case['m'], case['args'])
